@@ -4,8 +4,13 @@
 //! thread, the time-dependent code paths that consult it (state-store TTL and checkpoint
 //! ids, stream alpha-node windows) use the injected value instead of the system clock.
 //! With no override installed the real clock is used, so behaviour is unchanged.
+//!
+//! An event log: while a test has switched recording on, instrumented code appends one line
+//! per step at its linearization point; the position in the log is the global order of the
+//! events (the log has its own lock). With recording off the calls do nothing.
 
 use std::cell::Cell;
+use std::sync::Mutex;
 
 thread_local! {
     static CLOCK_MS: Cell<Option<u64>> = const { Cell::new(None) };
@@ -19,4 +24,25 @@ pub fn set_clock_ms(ms: Option<u64>) {
 /// The injected time, if an override is installed on this thread.
 pub fn clock_override_ms() -> Option<u64> {
     CLOCK_MS.with(|c| c.get())
+}
+
+static EVENTS: Mutex<Option<Vec<String>>> = Mutex::new(None);
+
+/// Start recording events (clears anything recorded before).
+pub fn events_start() {
+    *EVENTS.lock().unwrap() = Some(Vec::new());
+}
+
+/// Stop recording and return the events in the order they were appended.
+pub fn events_take() -> Vec<String> {
+    EVENTS.lock().unwrap().take().unwrap_or_default()
+}
+
+/// Append an event if recording is on; the text is only built in that case.
+pub fn event(text: impl FnOnce() -> String) {
+    if let Ok(mut log) = EVENTS.lock() {
+        if let Some(events) = log.as_mut() {
+            events.push(text());
+        }
+    }
 }
